@@ -19,7 +19,10 @@ pub struct Ctx {
     pub budget: Duration,
     /// Some(path) => replay mode
     pub replay: Option<String>,
+    /// where committed inputs live (corpus, known_findings.json)
     pub verif_dir: String,
+    /// where evidence/, replays/, scratch/ are written (differs from verif_dir only in mutant runs)
+    pub out_dir: String,
 }
 
 impl Ctx {
@@ -44,7 +47,8 @@ impl Ctx {
         let budget = std::env::var("VERIF_BUDGET_S").ok().and_then(|s| s.parse().ok())
             .unwrap_or(tier.pick(quick_budget_s, thorough_budget_s));
         let verif_dir = std::env::var("VERIF_DIR").unwrap_or_else(|_| "/verif".to_string());
-        Ctx { prop, tier, seed, threads, start: Instant::now(), budget: Duration::from_secs(budget), replay, verif_dir }
+        let out_dir = std::env::var("VERIF_OUT_DIR").unwrap_or_else(|_| verif_dir.clone());
+        Ctx { prop, tier, seed, threads, start: Instant::now(), budget: Duration::from_secs(budget), replay, verif_dir, out_dir }
     }
     pub fn out_of_time(&self) -> bool { self.start.elapsed() >= self.budget }
     pub fn elapsed_s(&self) -> f64 { self.start.elapsed().as_secs_f64() }
